@@ -21,7 +21,7 @@ CLAIMS = {
               "grammar, after conflict resolution. Tie A: model vs real LRParser on every input (outcome, tree, spans, layout). "
               "Oracle on implementation output: tree validity, leaves = tokens of the consumed input, partial-parse conservativity."),
         design_ref="5/C02",
-        note=TRUST + "; table types LALR/LALR_PAGER; C02_partial_conservative: parse with partial parsing off returning ok implies the same result with it on (any table, any lexer)",
+        note=TRUST + "; table types LALR/LALR_PAGER; C02_partial_conservative: parse with partial parsing off returning ok implies the same result with it on (any table, any lexer); C02_construction_tree_is_derivation(_any_lexer) (Props/C04Construction, audited by the C04 check): the same conclusion for every well-formed grammar over the table the model of LRTable::new returns, no certificate run (model table = real table by the whole-table correspondence of C04/C05)",
         technique="Lean 4 proof over executable model + verified table certificate + differential correspondence"),
     "C04": dict(
         category="proof",
